@@ -420,7 +420,7 @@ func (a *CBOAnalyzer) collectImports(ast *parser.Node) map[string]string {
 		switch node.Type {
 		case parser.NodeImport:
 			// import module as alias
-			aliased := make(map[string]bool)
+			aliased := make(map[string]int)
 			for _, child := range node.Children {
 				if child.Type == parser.NodeAlias {
 					module := child.Name
@@ -431,19 +431,22 @@ func (a *CBOAnalyzer) collectImports(ast *parser.Node) map[string]string {
 						}
 					}
 					imports[alias] = module
-					aliased[module] = true
+					aliased[module]++
 				}
 			}
-			// import module (no alias): the parser lists these in Names only
+			// import module (no alias): the parser lists these in Names only (and repeats
+			// every aliased module there once)
 			for _, name := range node.Names {
-				if !aliased[name] {
-					imports[name] = name
+				if aliased[name] > 0 {
+					aliased[name]--
+					continue
 				}
+				imports[name] = name
 			}
 		case parser.NodeImportFrom:
 			// from module import name as alias
 			module := node.Module
-			aliased := make(map[string]bool)
+			aliased := make(map[string]int)
 			for _, child := range node.Children {
 				if child.Type == parser.NodeAlias {
 					name := child.Name
@@ -454,14 +457,21 @@ func (a *CBOAnalyzer) collectImports(ast *parser.Node) map[string]string {
 						}
 					}
 					imports[alias] = module + "." + name
-					aliased[name] = true
+					aliased[name]++
 				}
 			}
-			// from module import name (no alias): the parser lists these in Names only
+			// from module import name (no alias): the parser lists these in Names only.
+			// Names also repeats every aliased name once, so a name is un-aliased when it
+			// occurs more often than it is aliased ("from m import Foo as F, Foo")
 			for _, name := range node.Names {
-				if name != "*" && !aliased[name] {
-					imports[name] = module + "." + name
+				if name == "*" {
+					continue
 				}
+				if aliased[name] > 0 {
+					aliased[name]--
+					continue
+				}
+				imports[name] = module + "." + name
 			}
 		}
 		return true
